@@ -749,9 +749,12 @@ def segment(text, train_text=None, grammar_file=None, category='Colloc0',
         log.info('running AG (%d times)...', nruns)
         parse_counter = ParseCounter(len(test_text))
 
+        # the error of a failing run is raised once all the runs are
+        # done (and have removed their temporary directory)
+        errors = []
         joblib.Parallel(
             n_jobs=njobs, backend="threading", verbose=0)(
-                joblib.delayed(_segment_single)(
+                joblib.delayed(utils.catch_errors(_segment_single, errors))(
                     parse_counter,
                     train_text,
                     grammar_file,
@@ -763,6 +766,8 @@ def segment(text, train_text=None, grammar_file=None, category='Colloc0',
                     tempdir=tempdir,
                     log_name='wordseg-ag - run {}'.format(n + 1))
                 for n in range(nruns))
+        if errors:
+            raise errors[0]
 
         t_stop = datetime.datetime.now()
         log.info('total processing time: %s', t_stop - t_start)
